@@ -12,7 +12,9 @@ import (
 	"os"
 	"reflect"
 	"regexp"
+	"runtime"
 	"runtime/debug"
+	"runtime/pprof"
 	"sort"
 	"strings"
 	"time"
@@ -43,7 +45,7 @@ type stats struct {
 
 func newStats() *stats { return &stats{outcomes: map[string]int64{}, counters: map[string]int64{}} }
 
-const maxCompileTries = 64 // only used when the outcome of Compile can depend on map iteration (>= 2 static values)
+const maxCompileTries = 12 // only used when the outcome of Compile can depend on map iteration (>= 2 static values on overlapping targets); a coin-flip acceptance is missed in all orders with probability < 2^-24
 
 func countStatics(p *Program) int {
 	n := 0
@@ -91,8 +93,9 @@ type expectation struct {
 	mayErr  bool   // a source path meets an absent key / nil pointer: the statement is silent; error or leave it out
 	why     string // which item causes mustErr / mayErr
 	model   reflect.Value
-	bug     string // inconsistency of the enumeration itself
-	causes  int    // number of mappings that cannot be moved as they are; >= 2: which one the run trips over first is not determined
+	bug     string       // inconsistency of the enumeration itself
+	nilItem map[int]bool // mappings that move an untyped nil
+	causes  int          // number of mappings that cannot be moved as they are; >= 2: which one the run trips over first is not determined
 }
 
 func expect(p *Program, gens [2]func() any) expectation {
@@ -129,6 +132,12 @@ func expect(p *Program, gens [2]func() any) expectation {
 				continue
 			}
 			val = v
+			if !v.IsValid() {
+				if ex.nilItem == nil {
+					ex.nilItem = map[int]bool{}
+				}
+				ex.nilItem[i] = true
+			}
 		}
 		switch mset(root, it.To, val) {
 		case sMismatch:
@@ -257,6 +266,7 @@ func checkRuns(p *Program, decl []Call, c compiled, vals []string, stream bool, 
 		}
 	}
 	var first string
+	var firstIn reflect.Value
 	varies := false
 	for i := 0; i < n; i++ {
 		o := c.run(stream, gens, p.Src)
@@ -296,12 +306,15 @@ func checkRuns(p *Program, decl []Call, c compiled, vals []string, stream bool, 
 			sig := runSig("panic-out-of-run", p, stream, errClass(o.Panic))
 			if strings.HasPrefix(sig, "panic-out-of-run") {
 				sig += sfx
+				if es := entryFailSig(p, &ex); es != "" && !ex.mustErr && !ex.mayErr {
+					sig = es // panic (Invoke) and recovered panic (streaming) are one class
+				}
 			}
 			add(mk(sig,
 				fmt.Sprintf("the run PANICKED out of the public API: %s (input class: %s; %s)", normMsg(o.Panic), cls, ex.why)))
 		case ex.mustErr:
 			if o.Err == nil {
-				desc = "ok:" + render(o.Input)
+				desc = "ok"
 				good = false
 				add(mk("runtime-type-error-not-reported/"+mode, fmt.Sprintf("the run succeeded with successor input %s although %s", render(o.Input), ex.why)))
 			} else {
@@ -317,11 +330,15 @@ func checkRuns(p *Program, decl []Call, c compiled, vals []string, stream bool, 
 				st.outcomes["run:"+mode+":error-on-absent-or-nil-source"]++
 			} else {
 				good = false
-				add(mk(runSig("unexpected-run-error", p, stream, errClass(o.Err.Error())),
+				sig := runSig("unexpected-run-error", p, stream, errClass(o.Err.Error()))
+				if es := entryFailSig(p, &ex); es != "" && strings.HasPrefix(sig, "unexpected-run-error") {
+					sig = es
+				}
+				add(mk(sig,
 					fmt.Sprintf("the run failed: %s; the model expects successor input %s", normMsg(o.Err.Error()), render(ex.model))))
 			}
 		default:
-			desc = "ok:" + render(o.Input)
+			desc = "ok"
 			switch {
 			case o.Called != 1:
 				good = false
@@ -332,7 +349,11 @@ func checkRuns(p *Program, decl []Call, c compiled, vals []string, stream bool, 
 			case !rootEqual(o.Input, ex.model):
 				good = false
 				sig, what := blame(p, o.Input, ex.model)
-				add(mk(fmt.Sprintf("value-mismatch/%s/%s", mode, sig),
+				sig = fmt.Sprintf("value-mismatch/%s/%s", mode, sig)
+				if i := strings.Index(sig, "-valued-map-entry/"); i >= 0 {
+					sig = sig[strings.LastIndex(sig[:i], "/")+1:] // one class for both paradigms
+				}
+				add(mk(sig,
 					fmt.Sprintf("successor input is %s, the model says %s (%s)", render(o.Input), render(ex.model), what)))
 			default:
 				if ex.mayErr {
@@ -347,8 +368,8 @@ func checkRuns(p *Program, decl []Call, c compiled, vals []string, stream bool, 
 			add(mk("predecessor-output-modified/"+mode, o.PredMod))
 		}
 		if i == 0 {
-			first = desc
-		} else if desc != first {
+			first, firstIn = desc, o.Input
+		} else if desc != first || (desc == "ok" && !equalMod(firstIn, o.Input)) {
 			varies = true
 		}
 		if varies && i >= 4 {
@@ -387,6 +408,63 @@ func runSig(kind string, p *Program, stream bool, cls string) string {
 
 // blame names the first mapping whose target does not hold the model's value.
 func blame(p *Program, obs, model reflect.Value) (sig, what string) {
+	sig, what, _ = blameItem(p, obs, model)
+	return
+}
+
+// entryFailSig classifies a run that fails although every mapped value fits, by what the set does below
+// map entries whose values are structs / struct pointers ("" if it does nothing there).
+func entryFailSig(p *Program, ex *expectation) string {
+	groups := map[string]int{}
+	first := ""
+	for i, it := range p.Items {
+		kind, entry, below := mapEntryClass(rootTypes[p.Dst], it.To)
+		if kind != "" && below == 0 && ex.nilItem[i] {
+			return kind + "-valued-map-entry/nil-value-fails"
+		}
+		if kind == "" || below < 1 {
+			continue
+		}
+		if first == "" {
+			first = kind
+		}
+		groups[kind+"|"+pathStr(entry)]++
+	}
+	for _, k := range harness.SortedKeys(groups) {
+		if groups[k] >= 2 {
+			return k[:strings.Index(k, "|")] + "-valued-map-entry/second-field-fails"
+		}
+	}
+	if first != "" {
+		return first + "-valued-map-entry/run-fails"
+	}
+	return ""
+}
+
+// entryMismatchSig classifies a wrong / missing value by the place of the blamed mapping.
+func entryMismatchSig(p *Program, item int, lost bool) string {
+	it := p.Items[item]
+	if kind, _, below := mapEntryClass(rootTypes[p.Dst], it.To); kind != "" && below >= 1 {
+		switch {
+		case lost && below >= 2:
+			return kind + "-valued-map-entry/nested-struct-value-lost"
+		case lost:
+			return kind + "-valued-map-entry/field-value-lost"
+		}
+		return kind + "-valued-map-entry/value-wrong"
+	}
+	if it.Src != slotStatic {
+		if kind, _, below := mapEntryClass(rootTypes[p.Src[it.Src]], it.From); kind != "" && below >= 1 {
+			if lost {
+				return "from-" + kind + "-valued-map-entry/value-lost"
+			}
+			return "from-" + kind + "-valued-map-entry/value-wrong"
+		}
+	}
+	return ""
+}
+
+func blameItem(p *Program, obs, model reflect.Value) (sig, what string, item int) {
 	var o, m any
 	if u := unwrap(obs); u.IsValid() {
 		o = u.Interface()
@@ -400,10 +478,15 @@ func blame(p *Program, obs, model reflect.Value) (sig, what string) {
 		if ook != mok || (ook && !equalMod(ov, mv)) {
 			inf := p.info(i)
 			last := func(c string) string { return c[strings.LastIndex(c, ">")+1:] }
-			return last(inf.FromChain) + "-to-" + last(inf.ToChain), "mapping " + it.String() + ": target holds " + render(ov) + ", expected " + render(mv)
+			what = "mapping " + it.String() + ": target holds " + render(ov) + ", expected " + render(mv)
+			lost := !ook || !unwrap(ov).IsValid() || unwrap(ov).IsZero()
+			if s := entryMismatchSig(p, i, lost); s != "" {
+				return s, what, i
+			}
+			return last(inf.FromChain) + "-to-" + last(inf.ToChain), what, i
 		}
 	}
-	return "unmapped-part-not-zero/" + p.Dst, "all mapped targets hold the right values, something else is not zero"
+	return "unmapped-part-not-zero/" + p.Dst, "all mapped targets hold the right values, something else is not zero", -1
 }
 
 // ---------------------------------------------------------------------------------------------------
@@ -715,6 +798,8 @@ func replayCase(cs *Case, quick bool) error {
 }
 
 func main() {
+	debug.SetGCPercent(800) // many small short-lived graphs: collect less often
+	runtime.GOMAXPROCS(1)   // runs are tiny and sequential; a second P only adds wake-ups (workers are processes)
 	c := harness.Init("C15")
 	c.Res.Rule = "a case is one canonical program = (shape, predecessor types, successor type, set of mappings {slot|static, from-path, to-path}); " +
 		"all its declaration orders (every permutation of the AddInput/SetStaticValue calls and of the mappings inside each AddInput) are compiled, " +
@@ -725,6 +810,7 @@ func main() {
 		"stream form of a map-typed predecessor output: one key per chunk (sorted); other types: one chunk; maps holding a nil value are not split (chunk concatenation of nil map values is property C14)",
 		"the successor consumes its stream itself (collect) and merges the chunks structurally; no concat function is registered",
 		"static values have the static type of their target leaf",
+		"the model treats a struct value inside a map as a value: copy the entry (or zero), set below the copy, write it back; a pointer entry is allocated when absent or nil",
 		"error texts, and whether a rejection happens in AddInput or in Compile, are not judged; rejected disjoint sets are not judged",
 		"a source path that meets an absent map key or a nil statically-typed pointer, or a successor input that would be a nil interface: the statement is silent - an error, or a successor input without that mapping, are both accepted; a panic out of the API is reported under its own signature (.../statement-silent-input)",
 		"when two or more mappings of one set cannot be moved (wrong dynamic values, absent keys), only 'the run does not succeed' is demanded: which of them the run meets first depends on map iteration; each cause is judged alone by the simpler programs",
@@ -735,7 +821,7 @@ func main() {
 		"paths by type walk (map keys k,j; below an interface: keys k,j on the target side, key k / field S on the source side) of length <=2 (quick) / <=3 (thorough), plus the whole value on either side; " +
 		"size 1: every type-compatible (from,to) of every type pair, predecessor = START or a lambda, all values (quick additionally: every path of length 3 once as target with its first donor and once as source with its first sink); " +
 		"size 2: every multiset of 2 targets x every assignment of the items to the predecessor slots (START | one lambda | START+lambda | two lambdas) or to a static value x <=2 donors per target (first statically typed, first run-time checked source path of a fitting type), predecessor types {T, map[string]any} (thorough: + *T, map[string]string); " +
-		"size 3: the same with 1 donor, successor types {T, map[string]any}, predecessor configurations START(T) | START(T)+lambda(map[string]any) | lambda(T)+lambda(T) (thorough: + START(map[string]any)). Values: 7 T values, 8 *T, 8 map[string]any, 3 map[string]string, 6 any (absent keys, nil pointers/maps, wrong and typed-nil dynamic values behind any); sets use the first two per slot (quick) or vary one slot at a time (thorough). Oracle: (1) a set with two targets that are equal or prefix-related must be rejected by every declaration order; " +
+		"size 3: the same with 1 donor, successor types {T, map[string]any}, predecessor configurations START(T) | START(T)+lambda(map[string]any) | lambda(T)+lambda(T) (thorough: + START(map[string]any)). Struct-valued-map family: root type SM{MI map[string]Inner, MP map[string]*Inner, MM map[string]Mid{In Inner, P *Inner}} with paths up to length 4 on both sides: every compatible single mapping between SM and every root type (predecessor START); every pair of SM targets (so two mappings below one map entry, and a field of a struct inside an entry) from START(T) | START(SM) | START(T)+lambda(map[string]any) | lambda(T)+lambda(T) or a static value; every triple of targets below one map entry from START(T); SM as predecessor of T and map[string]any successors; 4 SM values (absent keys, nil maps, nil pointer entries). Values: 7 T values, 8 *T, 8 map[string]any, 3 map[string]string, 6 any (absent keys, nil pointers/maps, wrong and typed-nil dynamic values behind any); sets use the first two per slot (quick) or vary one slot at a time (thorough). Oracle: (1) a set with two targets that are equal or prefix-related must be rejected by every declaration order; " +
 		"(2) accepted disjoint sets: the successor input recorded inside the successor equals the reflect-based get/set model (mapped paths set, rest zero), over 5 runs, in both paradigms; " +
 		"(3) predecessor outputs equal their deep copies after the run; (4) run-time checked mappings meeting a wrong dynamic value give an error, a panic out of Invoke/Transform is a violation."
 	quick := c.Quick()
@@ -752,6 +838,12 @@ func main() {
 			err = gerr
 		}
 		c.ReplayExit(v.Scenario, err)
+	}
+	if pf := os.Getenv("C15_PROF"); pf != "" {
+		f, _ := os.Create(pf)
+		pprof.StartCPUProfile(f)
+		defer pprof.StopCPUProfile()
+		time.AfterFunc(40*time.Second, func() { pprof.StopCPUProfile(); f.Close(); os.Exit(0) })
 	}
 	st := newStats()
 	perSig := map[string]int{}
@@ -782,6 +874,7 @@ func main() {
 		c.Journal(name, cs)
 		var fs []finding
 		before := st.validated
+		runsBefore, compBefore := st.runs, st.compiles
 		err := c.Guard(name, cs, 120*time.Second, func() error {
 			defer func() {
 				if r := recover(); r != nil {
@@ -797,6 +890,13 @@ func main() {
 		if err != nil {
 			fs = append(fs, finding{Sig: "panic-in-harness-or-unguarded-call", Msg: p.String() + ": " + normMsg(err.Error()), Case: cs})
 		}
+		fam := fmt.Sprintf("size%d", len(p.Items))
+		if p.Dst == "SM" || p.Src[0] == "SM" || (len(p.Src) > 1 && p.Src[1] == "SM") {
+			fam += "-struct-valued-map-family"
+		}
+		st.counters["programs:"+fam]++
+		st.counters["runs:"+fam] += st.runs - runsBefore
+		st.counters["compilations:"+fam] += st.compiles - compBefore
 		c.StateStr(p.String())
 		if p.nontrivial() {
 			c.Res.Nontrivial++
@@ -837,5 +937,6 @@ func main() {
 	for _, k := range keys {
 		c.Res.Notes = append(c.Res.Notes, fmt.Sprintf("class %s: %d cases in this worker", k, perSig[k]))
 	}
+	pprof.StopCPUProfile()
 	c.Finish()
 }
